@@ -164,6 +164,10 @@ impl PathSliceList {
                                 write!(w, r#"2,{},{}"#, gen_lit_str(path), gen_lit_str(mod_name))?
                             }
                         },
+                        Some(PathSlice::Condition(..)) => {
+                            // the head is written by the caller; only the tail follows
+                            need_comma = false;
+                        }
                         _ => return Ok(false),
                     }
                 }
